@@ -240,7 +240,7 @@ def gen_definition(rng, fam):
             d = rng.choice(later)
             tr = {"when": L.e("failed()"), "do": [d, "fail"]}
             if rng.random() < 0.4 and not fam.get("unique_writers"):
-                tr["publish"] = [{"z": token(t)}]
+                tr["publish"] = [{"z": token(t) if rng.random() < 0.5 else L.ctx(rng.choice(["x", "y"]))}]
             inbound[d].add(t)
             nxt.append(tr)
         if nxt:
@@ -257,6 +257,22 @@ def gen_definition(rng, fam):
                     # the retry is staged meets the re-staged entry
                     if rng.random() < fam.get("p_join_retry", 0.0) and "retry" not in tasks[t]:
                         tasks[t]["retry"] = {"count": rng.choice([1, 2])}
+                    # ... and one that runs items while the other branches are still arriving
+                    if rng.random() < fam.get("p_join_items", 0.0) and "with" not in tasks[t]:
+                        tasks[t]["action"] = "core.echo"
+                        tasks[t]["input"] = {"m": L.e("item()")}
+                        tasks[t]["with"] = L.e("list(1, 2)", "[1, 2]")
+                        if not fam.get("unique_writers"):
+                            # each branch brings its own value of x, and the task's failure handler publishes what
+                            # the execution saw: that is fixed when the execution starts, not when it fails
+                            for src in sorted(srcs):
+                                for tr in tasks[src].get("next", []):
+                                    do = tr.get("do") or []
+                                    do = [d.strip() for d in do.split(",")] if isinstance(do, str) else do
+                                    if t in do and "publish" not in tr:
+                                        tr["publish"] = [{"x": token(src)}]
+                            tasks[t]["next"] = [{"when": L.e("failed()"), "publish": [{"z": L.ctx("x")}]}] + \
+                                list(tasks[t].get("next") or [])
                 else:
                     tasks[t]["join"] = len(srcs)
             else:
